@@ -802,6 +802,18 @@ func run(c *hx.Ctx) error {
 		probes = append(probes, l)
 		add(tcase{Op: "replace", Src: hexs(l), Base: baseURL, Dir: dirName}, "inline "+l)
 	}
+	// lines around a code span that contains backtick strings of other lengths (longer ones
+	// too), links inside and after: the rule of fix 8b404d9, against the model (whose code spans
+	// are CommonMark's: codespan_content_literal_full). A stream of its own.
+	tr := proto.NewRand(c.Seed ^ 0xC29711C5)
+	nTickLines := 0
+	for i, n := 0, c.N(800, 16000); i < n; i++ {
+		l := "x " + genLooseTicks(tr)
+		probes = append(probes, l)
+		nTickLines++
+		add(tcase{Op: "replace", Src: hexs(l), Base: baseURL, Dir: dirName}, "inline "+l)
+	}
+	res.Histogram["cases-inline-model-lines-backtick-strings"] = nTickLines
 	res.Histogram["cases-literal-documents"] = len(docs) - fenceDocsEnd
 	res.Histogram["cases-inline-model-lines"] = len(probes)
 	res.Histogram["cases-fence-documents"] = fenceDocsEnd - mainDocs
